@@ -28,7 +28,7 @@ CHECKS["C07"] = dict(
     design_ref="5 C07", technique="Coq proof (invariant by induction over scripts) + extracted monitor/model vs real poll loop",
     note="Clock and sleep are caller closures (model: arbitrary reading list / recorded waits). Reply classification table tied to the Endpoint/JSON model.")
 CHECKS["C08"] = dict(
-    text="Theorems for arbitrary (even non-monotone) clocks and scripts of any length: the loop returns the first decisive reply with nothing after it, "
+    text="Theorems for arbitrary (even non-monotone) clocks and scripts of any length: the loop returns the first decisive reply with nothing after it (and conversely a decisive reply to a poll sent in time IS the outcome, whatever the clock reads afterwards), "
          "sends no poll after a reading past start+timeout, returns the synthetic expired_token exactly at the first such reading and never earlier, "
          "chooses the caller's timeout over expires_in, and turns an unrepresentable timeout into an error value with no request. "
          "Correspondence: full event traces (clock reads, polls, waits, result) of the real blocking and future-based loops against the extracted model, and against each other.",
